@@ -2,6 +2,45 @@
 //!
 //! [`JxlThreadPool`] is re-exported by `jxl-oxide`.
 
+#[cfg(feature = "rayon")]
+thread_local! {
+    static TASK_DEPTH: std::cell::Cell<usize> = const { std::cell::Cell::new(0) };
+}
+
+/// Returns the number of thread pool tasks running on the stack of current thread.
+///
+/// A thread pool worker may pick up another task while it waits inside a task; the value is
+/// greater than one in such a task. Always returns zero outside of thread pool tasks, and for thread
+/// pools without multithreading capability.
+pub fn task_depth() -> usize {
+    #[cfg(feature = "rayon")]
+    {
+        TASK_DEPTH.with(|depth| depth.get())
+    }
+    #[cfg(not(feature = "rayon"))]
+    {
+        0
+    }
+}
+
+#[cfg(feature = "rayon")]
+struct TaskDepthGuard;
+
+#[cfg(feature = "rayon")]
+impl TaskDepthGuard {
+    fn enter() -> Self {
+        TASK_DEPTH.with(|depth| depth.set(depth.get() + 1));
+        Self
+    }
+}
+
+#[cfg(feature = "rayon")]
+impl Drop for TaskDepthGuard {
+    fn drop(&mut self) {
+        TASK_DEPTH.with(|depth| depth.set(depth.get() - 1));
+    }
+}
+
 /// Thread pool wrapper.
 ///
 /// This struct wraps internal thread pool implementation and provides interfaces to access it. If
@@ -118,9 +157,15 @@ impl JxlThreadPool {
     pub fn spawn(&self, op: impl FnOnce() + Send + 'static) {
         match &self.0 {
             #[cfg(feature = "rayon")]
-            JxlThreadPoolImpl::Rayon(pool) => pool.spawn(op),
+            JxlThreadPoolImpl::Rayon(pool) => pool.spawn(|| {
+                let _depth = TaskDepthGuard::enter();
+                op()
+            }),
             #[cfg(feature = "rayon")]
-            JxlThreadPoolImpl::RayonGlobal => rayon_core::spawn(op),
+            JxlThreadPoolImpl::RayonGlobal => rayon_core::spawn(|| {
+                let _depth = TaskDepthGuard::enter();
+                op()
+            }),
             JxlThreadPoolImpl::None => op(),
         }
     }
@@ -133,11 +178,13 @@ impl JxlThreadPool {
         match &self.0 {
             #[cfg(feature = "rayon")]
             JxlThreadPoolImpl::Rayon(pool) => pool.scope(|scope| {
+                let _depth = TaskDepthGuard::enter();
                 let scope = JxlScope(JxlScopeInner::Rayon(scope));
                 op(scope)
             }),
             #[cfg(feature = "rayon")]
             JxlThreadPoolImpl::RayonGlobal => rayon_core::scope(|scope| {
+                let _depth = TaskDepthGuard::enter();
                 let scope = JxlScope(JxlScopeInner::Rayon(scope));
                 op(scope)
             }),
@@ -216,7 +263,10 @@ fn par_for_each<T: Send>(
     op: impl Fn(T) + Send + Sync,
 ) {
     use rayon::prelude::*;
-    it.into_par_iter().for_each(op);
+    it.into_par_iter().for_each(|item| {
+        let _depth = TaskDepthGuard::enter();
+        op(item)
+    });
 }
 
 #[cfg(feature = "rayon")]
@@ -226,7 +276,10 @@ fn par_for_each_with<T: Send, U: Send + Clone>(
     op: impl Fn(&mut U, T) + Send + Sync,
 ) {
     use rayon::prelude::*;
-    it.into_par_iter().for_each_with(init, op);
+    it.into_par_iter().for_each_with(init, |init, item| {
+        let _depth = TaskDepthGuard::enter();
+        op(init, item)
+    });
 }
 
 impl<'scope> JxlScope<'_, 'scope> {
@@ -235,6 +288,7 @@ impl<'scope> JxlScope<'_, 'scope> {
         match self.0 {
             #[cfg(feature = "rayon")]
             JxlScopeInner::Rayon(scope) => scope.spawn(|scope| {
+                let _depth = TaskDepthGuard::enter();
                 let scope = JxlScope(JxlScopeInner::Rayon(scope));
                 op(scope)
             }),
